@@ -46,6 +46,7 @@ type Report struct {
 	Rules    map[string]string // rule -> one-line statement
 	Fixtures []FixtureResult
 	Extra    map[string]interface{}
+	AltCounts map[string]int // per-rule instance counts seen on the inlining views
 }
 
 type FixtureResult struct {
@@ -137,7 +138,7 @@ func (r *Report) Finish(verifDir string, known *KnownFindings, start time.Time, 
 	}
 	sort.Strings(rules)
 	for _, name := range rules {
-		if count[name] < r.Floors[name] {
+		if count[name] < r.Floors[name] && r.AltCounts[name] < r.Floors[name] {
 			r.Unproven(name, "(rule)", "instance-floor", "", fmt.Sprintf("rule matched %d instances, floor is %d: an anchor moved or the rule no longer sees the code it was written for", count[name], r.Floors[name]))
 		}
 	}
